@@ -140,7 +140,9 @@ def match_known(known, pid, sig):
     for e in known:
         if e.get('property') != pid or e.get('status') != 'open':
             continue
-        if fnmatch.fnmatchcase(sig, e['signature']):
+        pats = [e['signature']] if 'signature' in e else []
+        pats += e.get('signatures', [])
+        if any(fnmatch.fnmatchcase(sig, p) for p in pats):
             return e
     return None
 
@@ -472,7 +474,7 @@ def run_check(pid, tier, base_seed, runs=None, workers=None, wall_cap=None):
     for sig in sorted(by_sig):
         entry = match_known(known, pid, sig)
         if entry is not None:
-            known_hit.append({'signature': entry['signature'], 'what': entry['what'],
+            known_hit.append({'signature': entry.get('signature') or entry.get('group') or entry['signatures'][0], 'what': entry['what'],
                               'hits': len(by_sig[sig])})
             continue
         reported.append(sig)
